@@ -3,7 +3,7 @@
 # (run_seeded.py applies the patch to /repo and undoes it; a lock keeps two runs from overlapping)
 set -u
 P=$1; V=$2; ID=$3
-OUT=/tmp/seedout/$P/$V; WT=/tmp/wt/$P
+OUT=/tmp/seedout/$P/$V; WT=${WTBASE:-/tmp/wt}/$P
 /verif/tools/confirm_seed.sh $OUT $WT > $OUT/confirm.log 2>&1
 tail -2 $OUT/confirm.log
 grep -q '^CONFIRMED' $OUT/confirm.log || { echo "NOT CONFIRMED $ID"; exit 1; }
